@@ -42,6 +42,7 @@ func c03DoPool(ctx *Ctx, p c03Pool, sets int) {
 	m := c03Matrix(p)
 	c03Judge(ctx, m)
 	c03PoolCorr(ctx, m)
+	c03D03bPool(ctx, p)
 	if sets > 0 {
 		c03SetCases(ctx, m, sets == 2, ctx.N(1, 2))
 		c03VSCases(ctx, m, ctx.N(2, 4))
@@ -149,6 +150,7 @@ func runC03(ctx *Ctx) {
 	}
 	// 5b. d03: pools inside the proved frontier, hypothesis predicates, large sets, unknown members
 	runC03D03(ctx)
+	runC03D03b(ctx)
 	// 6. the generic cty/set half
 	runC03SetBudget(ctx, ctx.Thorough)
 }
